@@ -718,6 +718,9 @@ int main(int argc, char **argv)
     o.shard = vx::argInt(argc, argv, "--shard", 0); o.nshards = vx::argInt(argc, argv, "--nshards", 1);
     int dl = vx::argInt(argc, argv, "--deadline-s", 0);
     if (dl > 0) { struct timeval tv; gettimeofday(&tv, nullptr); o.deadline = tv.tv_sec + dl; }
+    // --deadline-at: one absolute deadline (seconds since the epoch) shared by every shard of every scenario of a check, so that the
+    // whole check - not each shard on its own - ends in bounded time; a shard that starts after it explores its default schedule only
+    { long long at = atoll(vx::argStr(argc, argv, "--deadline-at", "0")); if (at > 0 && (double)at < o.deadline) o.deadline = (double)at; }
     const char *rp = vx::argStr(argc, argv, "--replay", nullptr);
     if (rp) { for (auto &c : QString::fromLatin1(rp).split(',', Qt::SkipEmptyParts)) o.replayChoices.push_back(c.toInt()); o.verbose = true; }
     std::function<void()> body;
